@@ -116,8 +116,7 @@ namespace
         }
         // Get navigation path
         std::vector<value> path;
-        path.push_back(nav->name);
-        while (nav->id_parent_logical != config::invalid_id)
+        while (!nav.empty())
         {
             path.push_back(nav->name);
             nav = nav.parent_logical();
